@@ -34,7 +34,7 @@ class OrientedLine:
         return
       elif isinstance(args[0], str):
         self.__line = args[0][0:-1]
-        self.__orient = args[0][-1]
+        self.__orient = args[0][-1:]
       elif isinstance(args[0], list):
         self.__line = args[0][0]
         self.__orient = args[0][1]
